@@ -37,8 +37,8 @@ def _node_job(node, script, job, flags=()):
     return json.loads(p.stdout)
 
 
-def node_diffexec(node, prop, seed, tier, known, ev):
-    n = 400 if tier == 'quick' else 8000
+def node_diffexec(node, prop, seed, tier, known, ev, scale=1):
+    n = (400 if tier == 'quick' else 8000) * scale
     reqs = gen.exec_requests(seed ^ 0xE8EC, n)
     for q in reqs:
         q['ast'] = False
@@ -70,7 +70,7 @@ def node_diffexec(node, prop, seed, tier, known, ev):
                     cls = 'spread-of-a-non-iterable-literal-throws-after-later-arguments-were-evaluated'
                 elif not plus_on and ' + ' in q['src']:
                     cls = 'sum-left-in-place-is-evaluated-after-hoisted-operands-when-plus-is-disabled'
-                kf = [x for x in known if x['cls'] == cls and x['property'] == prop]
+                kf = [x for x in known if x['cls'] == cls and x['property'] in (prop, 'C01')]
                 (known_hits.setdefault((prop, cls), []).append((q, r['diff'])) if kf else
                  violations.append(('%s:%s' % (prop, cls), q, rec, r['diff'])))
     ev['coverage']['node_diffexec'] = {'programs_run': ran, 'events_compared': events, 'generated': n,
